@@ -59,7 +59,7 @@ def judge_help(a, calls):
 def run(ctx):
     r = ctx.rng.fork("c11")
     n_nodes = 2000 if ctx.quick else 60000
-    n_help = 1200 if ctx.quick else 40000
+    n_help = 1200 if ctx.quick else 25000
     ctx.cov["rule"] = ("nodes: %d generated statements of every kind (sqlgen.Gen.stmt over 7 dialects, 15%% from the wild generator) + the repository's SQL corpus; model and "
                        "implementation agree on node count and node classes; the implementation checks on every node at every depth: setattr raises, field values are "
                        "None/bool/int/str/Enum/tuple/node, no __dict__, hash() succeeds, re-parsed copy == and same hash, one-field variant !=.  helpers: %d generated CREATE "
